@@ -420,6 +420,122 @@ func runC05(c *Ctx, w *World, r *Report) {
 		}
 	}
 	r.Check(bad == "", "R-SELECT", "bmtree.IndexToPath", w.Pos(fn.Pos()), bad, fmt.Sprintf("selector and loop exit both use mask&%d", selMask))
+
+	// contracts (if any) guarding IndexToPath must not overflow at height 30
+	if cf := contractFuncsOf(w, fn); len(cf) > 0 {
+		reportContractShl32(w, r, cf)
+	}
+	// R-STALE: every step of the descent decides left/right from the CURRENT remaining index
+	r.Rule("R-STALE", "in IndexToPath every update of the remaining index (index--, index -= 2^k, the prefix-shortcut adjustment) is control dependent only on tests of that same version of the index: a left/right decision read from an older version (a stale bit, e.g. when several levels are decided from one read) mis-steps when the earlier move changed the lower bits")
+	{
+		idxParam := ssa.Value(fn.Params[1])
+		ver := map[ssa.Value]bool{idxParam: true}
+		// a parameter captured by a (contract) closure lives in a cell: its loads are the versions
+		var cell *ssa.Alloc
+		eachInstr(fn, func(ins ssa.Instruction) {
+			if st, ok := ins.(*ssa.Store); ok && st.Val == idxParam {
+				if al, ok := st.Addr.(*ssa.Alloc); ok {
+					cell = al
+				}
+			}
+		})
+		if cell != nil {
+			eachInstr(fn, func(ins ssa.Instruction) {
+				if ld, ok := ins.(*ssa.UnOp); ok && ld.Op == token.MUL && ld.X == ssa.Value(cell) {
+					ver[ld] = true
+				}
+			})
+		}
+		sameVersion := func(a, b ssa.Value) bool {
+			if a == b {
+				return true
+			}
+			la, ok1 := a.(*ssa.UnOp)
+			lb, ok2 := b.(*ssa.UnOp)
+			if ok1 && ok2 && cell != nil && la.X == ssa.Value(cell) && lb.X == ssa.Value(cell) {
+				return fa.Epoch(la) == fa.Epoch(lb)
+			}
+			return false
+		}
+		changed := true
+		for changed {
+			changed = false
+			eachInstr(fn, func(ins ssa.Instruction) {
+				v, ok := ins.(ssa.Value)
+				if !ok || ver[v] || !isIntType(v.Type()) || v.Type().String() != idxParam.Type().String() {
+					return
+				}
+				t := false
+				switch x := v.(type) {
+				case *ssa.Phi:
+					for _, e := range x.Edges {
+						if ver[e] {
+							t = true
+						}
+					}
+				case *ssa.BinOp:
+					if (x.Op == token.SUB || x.Op == token.ADD) && ver[x.X] {
+						t = true
+					}
+				}
+				if t {
+					ver[v] = true
+					changed = true
+				}
+			})
+		}
+		// dependencies of a value on index versions (stopping at versions)
+		var deps func(v ssa.Value, seen map[ssa.Value]bool, out map[ssa.Value]bool)
+		deps = func(v ssa.Value, seen map[ssa.Value]bool, out map[ssa.Value]bool) {
+			if seen[v] {
+				return
+			}
+			seen[v] = true
+			if ver[v] {
+				out[v] = true
+				return
+			}
+			ins, ok := v.(ssa.Instruction)
+			if !ok {
+				return
+			}
+			if _, isPhi := v.(*ssa.Phi); isPhi {
+				return // loop-carried non-index state (mask, p2)
+			}
+			var ops []*ssa.Value
+			for _, o := range ins.Operands(ops) {
+				if *o != nil {
+					deps(*o, seen, out)
+				}
+			}
+		}
+		badS := ""
+		nupd := 0
+		eachInstr(fn, func(ins ssa.Instruction) {
+			bo, ok := ins.(*ssa.BinOp)
+			if !ok || !ver[bo] || !ver[bo.X] {
+				return
+			}
+			nupd++
+			for _, cd := range fa.Conds(bo.Block()) {
+				out := map[ssa.Value]bool{}
+				deps(cd.V, map[ssa.Value]bool{}, out)
+				if len(out) == 0 {
+					continue
+				}
+				for y := range out {
+					if !sameVersion(y, bo.X) {
+						badS = fmt.Sprintf("the index update at %s is decided by a test at %s that reads an older version of the index (%s, current is %s)", w.InstrPos(bo), w.InstrPos(cd.If), y.Name(), bo.X.Name())
+					}
+				}
+				break // nearest index-dependent test only
+			}
+		})
+		if nupd == 0 {
+			badS = "no update of the remaining index found"
+		}
+		r.Check(badS == "", "R-STALE", "bmtree.IndexToPath", w.Pos(fn.Pos()), badS, fmt.Sprintf("%d index updates, each decided from the version it updates", nupd))
+	}
 	_ = strings.Join
 }
 
